@@ -1209,7 +1209,7 @@ func TestVerifC31(t *testing.T) {
 	r.Assume("Fake adapters are well behaved: a remote owner classifies only routes it was sent; a failed or panicking transport call leaves every submitted route eligible for retry (as the runtime documents).")
 	r.Assume("PlanTimeout is set to 1h and MaxPendingPerSession is unlimited so that neither cuts a plan short; plans accepted in a generation that was stopped with an expired context are exempt from the coverage lower bounds.")
 
-	n := r.N(260, 2400)
+	n := r.N(220, 2400)
 	for i := 0; i < n; i++ {
 		if r.Skip(i) {
 			continue
